@@ -6,6 +6,7 @@ import (
 	"math"
 	"os"
 	"reflect"
+	"strconv"
 	"strings"
 
 	"github.com/vimeo/dials"
@@ -159,6 +160,67 @@ func badLiteral(r *fw.Rand, lf *gen.Leaf) (string, string) {
 	return "", ""
 }
 
+// c11AltInt spells one integer with a base prefix or digit separators.
+func c11AltInt(r *fw.Rand, neg bool, abs uint64) string {
+	sign := ""
+	if neg {
+		sign = "-"
+	}
+	switch r.Intn(5) {
+	case 0:
+		return sign + "0x" + strconv.FormatUint(abs, 16)
+	case 1:
+		return sign + "0o" + strconv.FormatUint(abs, 8)
+	case 2:
+		return sign + "0b" + strconv.FormatUint(abs, 2)
+	case 3:
+		return sign + "0" + strconv.FormatUint(abs, 8) // legacy octal (also "00" for zero)
+	}
+	d := strconv.FormatUint(abs, 10)
+	if len(d) > 3 {
+		d = d[:len(d)-3] + "_" + d[len(d)-3:]
+	}
+	return sign + d
+}
+
+// c11AltIntText: another spelling of an integer leaf's value (scalars and integer slices; not durations, not ip).
+func c11AltIntText(r *fw.Rand, lf *gen.Leaf, v reflect.Value) (string, bool) {
+	one := func(x reflect.Value) (string, bool) {
+		switch x.Kind() {
+		case reflect.Int, reflect.Int8, reflect.Int16, reflect.Int32, reflect.Int64:
+			i := x.Int()
+			if i < 0 {
+				return c11AltInt(r, true, uint64(-(i+1))+1), true
+			}
+			return c11AltInt(r, false, uint64(i)), true
+		case reflect.Uint, reflect.Uint8, reflect.Uint16, reflect.Uint32, reflect.Uint64:
+			return c11AltInt(r, false, x.Uint()), true
+		}
+		return "", false
+	}
+	if lf.Name == "duration" || lf.Caps&gen.CapTextU != 0 {
+		return "", false
+	}
+	if v.Kind() == reflect.Slice {
+		if v.Len() == 0 {
+			return "", false
+		}
+		parts := make([]string, v.Len())
+		for k := range parts {
+			p, ok := one(v.Index(k))
+			if !ok {
+				return "", false
+			}
+			parts[k] = p
+			if r.Chance(30) {
+				parts[k] = " " + p
+			}
+		}
+		return strings.Join(parts, ","), true
+	}
+	return one(v)
+}
+
 func runC11(w *fw.Worker) {
 	// the worker's own environment must not supply variables (PATH, HOME, ...)
 	os.Clearenv()
@@ -229,6 +291,11 @@ func runC11(w *fw.Worker) {
 			v := gen.GenLeafValue(r, c, lf)
 			layer.Vals[lr] = v
 			texts[envName(prefix, lr)] = lf.Text(v)
+			if alt, ok := c11AltIntText(r, lf, v); ok && r.Chance(20) {
+				// integers (and integer list elements) may be spelled with a base prefix, digit separators, spaces
+				texts[envName(prefix, lr)] = alt
+				w.Count("integers_in_another_spelling", 1)
+			}
 		}
 		set := func(k, v string) {
 			os.Setenv(k, v)
